@@ -262,6 +262,28 @@ func c18InvalidUTF8(r *rand.Rand) string {
 	return b.String()
 }
 
+// c18Scribble writes into every map of a parsed value (and into the elements of its lists); it returns how many containers it touched.
+func c18Scribble(v interface{}) int {
+	n := 0
+	switch t := v.(type) {
+	case map[string]interface{}:
+		for _, e := range t {
+			n += c18Scribble(e)
+		}
+		t["scribbledZz"] = int64(1)
+		n++
+	case []interface{}:
+		for i, e := range t {
+			n += c18Scribble(e)
+			if e == nil {
+				t[i] = "scribbled"
+			}
+		}
+		n++
+	}
+	return n
+}
+
 func runC18(c *run.Ctx) {
 	c.Rule = "seeded generator over {null,bool,int64,non-integral finite float,valid UTF-8 string,Symbol,Var,list,map with name keys}, depth<=4; " +
 		"each value written by WriteSDLValue and WriteJSONValue at indent -1,0,2 with Sort on/off and read back by ParseValueString and encoding/json; " +
@@ -332,6 +354,15 @@ func runC18(c *run.Ctx) {
 						fail("sdl-parse", sb.String(), fmt.Sprint(pv), perr)
 					} else if !reflect.DeepEqual(normEmpty(back), normEmpty(v)) {
 						fail("sdl-roundtrip", sb.String(), fmt.Sprintf("%#v", back), nil)
+					} else if indent == 0 && c18Scribble(back) > 0 {
+						// a parsed value belongs to the caller: after the caller wrote into its containers (the empty ones
+						// too), parsing the same text again must still give the original value
+						var again interface{}
+						pv, _ = run.Protect(func() { again, perr = ggql.ParseValueString(sb.String()) })
+						c.Count("reparsed_after_caller_modified_the_first_result", 1)
+						if pv != nil || perr != nil || !reflect.DeepEqual(normEmpty(again), normEmpty(v)) {
+							fail("sdl-parse-after-scribble", sb.String(), fmt.Sprintf("%#v", again), perr)
+						}
 					}
 					c.Count("sdl_roundtrips", 1)
 				}
